@@ -193,7 +193,8 @@ Proof.
   intros H. unfold parse_rdata in H.
   destruct (parse_type dec s m pos lim) as [[v' e]| | |]; try discriminate.
   cbn [bind fst snd] in H. destruct (e =? lim); [|discriminate].
-  destruct (post_ok (s_post s) v') eqn:Epost; [|discriminate]. injection H as <-. exact Epost.
+  destruct (post_check (s_post s) v') eqn:Epost; [discriminate|]. injection H as <-.
+  unfold post_ok. rewrite Epost. reflexivity.
 Qed.
 
 Lemma parse_rdata_wf s m pos lim v :
@@ -203,7 +204,7 @@ Proof.
   intros Hm Hl H. unfold parse_rdata in H.
   destruct (parse_type dec s m pos lim) as [[v' e]| | |] eqn:E; try discriminate.
   cbn [bind fst snd] in H. destruct (e =? lim); [|discriminate].
-  destruct (post_ok (s_post s) v') eqn:Epost; [|discriminate]. injection H as <-.
+  destruct (post_check (s_post s) v') eqn:Epost; [discriminate|]. injection H as <-.
   unfold parse_type in E. destruct (s_long s) as [k|].
   - destruct (lim - pos <? k); [discriminate|]. destruct (65535 <? lim - pos - k); [discriminate|].
     eapply parse_fields_wf; eauto.
@@ -245,19 +246,21 @@ Qed.
 
 Theorem ctor_accepts_wf s v :
   ctor_accepts s v = true -> overlong s v = false -> short_rest s v = false ->
+  post_ok (s_post s) v = true ->
   wf_value s v = true.
 Proof.
-  unfold ctor_accepts, overlong, short_rest, wf_value. intros H Ho Hr.
-  apply andb_true_iff in H as [H Hpost]. apply andb_true_iff in H as [Hv _].
+  unfold ctor_accepts, overlong, short_rest, wf_value. intros H Ho Hr Hpost.
+  apply andb_true_iff in H as [H _]. apply andb_true_iff in H as [Hv _].
   rewrite (wf_fvals_ctor _ _ Hv Hr), Hpost.
   apply N.ltb_ge in Ho. apply N.leb_le in Ho. rewrite Ho. reflexivity.
 Qed.
 
 (* with a checking constructor and no minimum on the remainder nothing is excluded *)
 Theorem checked_ctor_accepts_wf s v :
-  s_ctor_total s = true -> ctor_accepts s v = true -> short_rest s v = false -> wf_value s v = true.
+  s_ctor_total s = true -> ctor_accepts s v = true -> short_rest s v = false ->
+  post_ok (s_post s) v = true -> wf_value s v = true.
 Proof.
-  intros Hc H Hr. apply ctor_accepts_wf; auto.
+  intros Hc H Hr Hpost. apply ctor_accepts_wf; auto.
   unfold ctor_accepts in H. rewrite Hc in H. cbn [negb orb] in H.
   apply andb_true_iff in H as [H _]. apply andb_true_iff in H as [_ Ht]. unfold overlong. apply N.ltb_ge. apply N.leb_le in Ht. exact Ht.
 Qed.
